@@ -26,7 +26,7 @@ RULE = (
 EXPLANATION = "exhaustive bounded enumeration against the real encoder/decoder"
 ASSUMPTIONS = ["fixture package importable by name", "the __module__ of an anonymous TypedDict is not structure"]
 
-EXTRA_VALUES = ["NotImplemented", "int.__dict__", "H.NoneType()", "H.mappingproxy()", "H.Any()", "H.Union()", "H.List()", "[H.NoneType()]", "{'a': H.NoneType()}", "H.NoneType", "[NotImplemented, None]"]
+EXTRA_VALUES = ["Color.RED", "[Color.RED, Color.BLUE]", "Color", "AbcImpl()", "AbcBase", "WithMeta()", "WithMeta", "{'a': AbcImpl()}", "NotImplemented", "int.__dict__", "H.NoneType()", "H.mappingproxy()", "H.Any()", "H.Union()", "H.List()", "[H.NoneType()]", "{'a': H.NoneType()}", "H.NoneType", "[NotImplemented, None]"]
 
 
 def _ns():
@@ -142,6 +142,17 @@ def check_trace(fname: str, func, args: Dict[str, Any], ret, yld, mods) -> Optio
             return ("trace", f"{slot}-absent-vs-none", f"{fname}: {slot} {a!r} decoded as {b!r}")
         if a is not None and O.struct(a) != O.struct(b):
             return ("trace", f"{slot}-type", f"{fname}: {slot} {O.show(a)} decoded as {O.show(b)}")
+    # encoding is a function of structure only: the same trace built independently (argument dict filled in the opposite
+    # order, types rebuilt with fields in reverse order) must give the same row
+    try:
+        args2 = {n: rebuild(tt) for n, tt in reversed(list(args.items()))}
+        row2 = CallTraceRow.from_trace(CallTrace(func, args2, None if ret is None else rebuild(ret), None if yld is None else rebuild(yld)))
+    except Exception as e:  # noqa: BLE001
+        return ("exception", "trace:rebuild", f"{fname}: re-encoding an independently built equal trace raised {e!r}")
+    norm = lambda js: None if js is None else json.dumps(strip_atd_module(json.loads(js)), sort_keys=False)  # noqa: E731
+    for slot, a1, a2 in (("arg_types", row.arg_types, row2.arg_types), ("return_type", row.return_type, row2.return_type), ("yield_type", row.yield_type, row2.yield_type)):
+        if norm(a1) != norm(a2):
+            return ("structure-only", f"row-{slot}-differs", f"{fname}: equal traces encode {slot} as {a1[:120] if a1 else a1!r} and {a2[:120] if a2 else a2!r}")
     # row-level: JSON is text / None
     if (ret is None) != (row.return_type is None) or (yld is None) != (row.yield_type is None):
         return ("trace", "row-null", f"{fname}: row return={row.return_type!r} yield={row.yield_type!r}")
@@ -222,7 +233,7 @@ def run(ctx: Ctx) -> Result:
             res.transitions += 2
             res.evaluations += 1
             res.validated += 1
-            v = check_trace(fname, func, {"x": at}, slot_types[ri], slot_types[yi], (CallTrace, CallTraceRow))
+            v = check_trace(fname, func, {"x": at, "a_second": arg_types[(ci + 7) % len(arg_types)]}, slot_types[ri], slot_types[yi], (CallTrace, CallTraceRow))
             if v:
                 res.violate(Violation(ID, v[0], v[1], {"what": "trace", "func": fname, "ci": ci, "tier": ctx.tier}, v[2]))
             else:
@@ -255,7 +266,7 @@ def replay(case: Dict[str, Any], ctx: Ctx) -> List[Violation]:
         combos = list(itertools.product(range(len(funcs)), range(len(slot_types)), range(len(slot_types))))
         fi, ri, yi = combos[case["ci"]]
         fname, func = funcs[fi]
-        v = check_trace(fname, func, {"x": arg_types[case["ci"] % len(arg_types)]}, slot_types[ri], slot_types[yi], (CallTrace, CallTraceRow))
+        v = check_trace(fname, func, {"x": arg_types[case["ci"] % len(arg_types)], "a_second": arg_types[(case["ci"] + 7) % len(arg_types)]}, slot_types[ri], slot_types[yi], (CallTrace, CallTraceRow))
     if v:
         out.append(Violation(ID, v[0], v[1], case, v[2]))
     return out
